@@ -115,4 +115,32 @@ theorem checkVfp_model (path : Bytes) : checkVfp path (versionFromPath true path
                   have hlen : (path.take und).length = und := take_length_le path und (Nat.le_of_lt hlt)
                   simp only [hpre, Bool.not_true, Bool.false_eq_true, ↓reduceIte, hlen, hdrop, h5, hnot95, h6, h3, BEq.rfl]
 
+/-- exactly which paths made the unfixed `versionFromPath` panic: those whose last `_` is directly followed by `.` -/
+theorem vfp_old_panics_iff (path : Bytes) :
+    (∃ site, versionFromPath false path = .panic site) ↔
+      ∃ und, lastIndexOf 95 path = some und ∧ (path.drop (und + 1)).head? = some 46 := by
+  unfold versionFromPath
+  cases h1 : lastIndexOf 95 path with
+  | none => simp
+  | some und =>
+    simp only [Option.some.injEq, exists_eq_left']
+    obtain ⟨hlt, hdrop, hnot⟩ := lastIndexOf_some 95 path und h1
+    rw [hdrop, indexOf_cons_ne 46 95 _ (by decide)]
+    cases h5 : path.drop (und + 1) with
+    | nil => simp [indexOf]
+    | cons c r =>
+      by_cases hc : c = 46
+      · subst hc
+        simp only [indexOf, ↓reduceIte, Option.map_some, List.head?_cons, iff_true]
+        have : 0 + 1 + und < und + 2 := by omega
+        exact ⟨"slice bounds out of range [und+2:dot]", by simp [this]⟩
+      · rw [indexOf_cons_ne 46 c r hc]
+        cases h6 : indexOf 46 r with
+        | none => simp [hc]
+        | some d2 =>
+          have : ¬ (und + 2 > d2 + 1 + 1 + und) := by omega
+          simp only [Option.map_some, this, ↓reduceIte, List.head?_cons, Option.some.injEq, hc, iff_false, not_exists]
+          intro site
+          split <;> simp
+
 end ZoektModel.C19
